@@ -59,3 +59,7 @@ impl StateMutex for std::sync::RwLock<InternalState> {
         f(&mut self.write().unwrap())
     }
 }
+
+#[cfg(feature = "pendulum_project_ntpd_rs_verif")]
+#[path = "/verif/hooks/statime-csptp/platform.rs"]
+pub mod vh_platform;
